@@ -224,3 +224,28 @@ def aead_compilers(tier, seed, root):
                     "text": "\n".join(_fail_lines(out)) or out[-300:], "cmd": cmd, "reproduced": True}
         texts.append("%s %s: %s" % (cc, opt, out.strip().split("\n")[-1]))
     return {"text": "compiler/optimisation-level differential test (a test, not a proof): " + "; ".join(texts)}
+
+
+def huge_campaign(kind):
+    """thorough-tier fallback for sizes >= 2^31 / 2^32 (self-consistency of the real library, see native/huge.c)"""
+    def run(tier, seed, root):
+        base = aead_campaign(tier, seed, root) if kind == "aead" else lib_campaign("hash")(tier, seed, root)
+        if base.get("violation") or tier != "thorough":
+            return base
+        exe = build("huge", ["native/huge.c"], root, extra=["-O2"])
+        texts = [base["text"]]
+        for args in ((["aead", "31"], ["aead", "32"]) if kind == "aead" else (["hash"],)):
+            rc, out, secs = run_tool(exe, args, root, timeout=1500)
+            cmd = "native/huge " + " ".join(args)
+            if rc == 1:
+                return {"violation": True, "name": "native.huge." + kind, "obligation": "real library is self-consistent at sizes >= 2^31",
+                        "text": "\n".join(_fail_lines(out)), "cmd": cmd, "reproduced": True}
+            if rc == 99:
+                texts.append(cmd + ": buffer could not be mapped (inconclusive)")
+            elif rc != 0:
+                return {"violation": True, "name": "native.huge." + kind, "obligation": "real library runs at sizes >= 2^31",
+                        "text": "abnormal termination (rc %s)" % rc, "cmd": cmd, "reproduced": True}
+            else:
+                texts.append(out.strip().split("\n")[-1])
+        return {"text": "; ".join(texts)}
+    return run
